@@ -297,7 +297,7 @@ impl Scenario for TrackerHistories {
             _ => g.usize(601, 5000),
         };
         let sigma = g.log_uniform(1e-6, 1e3); // any scale: f32 conditioning depends on mean/sd, not on the scale
-        json!({"elt": *g.pick(&["f64", "f32", "f32", "i32", "i32", "i16", "u8"]), "chains": g.usize(2, 16), "params": g.usize(1, 8), "n": n,
+        json!({"elt": *g.pick(&["f64", "f32", "f32", "i32", "i32", "i16", "u8"]), "chains": crate::core::size(g, 2, 16, 70), "params": crate::core::size(g, 1, 8, 70), "n": n,
                "mu": fbits(sigma * g.f64_in(-10.0, 10.0)), "sigma": fbits(sigma), "shift": fbits(if g.bool(1, 2) { 0.0 } else { g.f64_in(0.1, 3.0) }),
                "hold": if g.bool(1, 3) { g.usize(2, 5) } else { 1 }, "gseed": g.u64()})
     }
